@@ -5,9 +5,10 @@ import ast
 import itertools
 
 from .common import SRC, add_failure, bump, new_outcome
+from .c01_gen import GEN_PROOFS, gen_corr, generate  # noqa: F401  (translator tie: generate() runs first on every check)
 
 PROP = "C01"
-PROPS_FILES = ["CogentModel/Props/C01.lean"]
+PROPS_FILES = ["CogentModel/Props/C01.lean", GEN_PROOFS]  # the per-function equivalence theorems are obligations too
 LEAN_TARGETS = ["CogentModel.Props.C01"]
 DRIVER = "drv_c01"
 TRUSTED = [
@@ -834,3 +835,257 @@ def check_witness(ctx, w):
         add_failure(out, "spec", f"read-only method {w['method']} differs from fresh sequence", w, b, a, sig=f"method:{w['impl']}:{w['method']}")
         return out["failures"][0]
     return None
+
+
+# ==========================================================================
+# appended: string-level models part 2 (Model/SeqConv.lean, Model/SeqCoords.lean; Props/C01Seq.lean)
+# ==========================================================================
+PROPS_FILES = PROPS_FILES + ["CogentModel/Props/C01Seq.lean"]
+LEAN_TARGETS = LEAN_TARGETS + ["CogentModel.Props.C01Seq"]
+TRUSTED = TRUSTED + [
+    "hand-written models lean/CogentModel/Model/SeqConv.lean (to_rna/to_dna) and Model/SeqCoords.lean "
+    "(parent_coordinates / annotation_offset / SeqDataView.str_value), tied by the convchain / coordchain / sdvstr streams",
+]
+
+
+def _real_conv_table(kind, target):
+    """per-character conversion performed by to_moltype(target) on a dna/rna string, read off the real code"""
+    src = "dna" if target == "rna" else "rna"
+    tbl = {}
+    if kind == "old":
+        import cogent3
+
+        mt = cogent3.get_moltype(target)
+        for ch in _SEQ_LETTERS[src] + _DEGEN + "tucagn":
+            r = mt.coerce_str(ch)
+            if r != ch:
+                tbl[ch] = r
+    else:
+        from cogent3.core import new_moltype
+
+        a = new_moltype.get_moltype(src).most_degen_alphabet()
+        b = new_moltype.get_moltype(target).most_degen_alphabet()
+        for ch in _SEQ_LETTERS[src] + _DEGEN:
+            try:
+                r = b.array_to_bytes(a.to_indices(ch)).decode("utf8")
+            except Exception:
+                continue
+            if r != ch:
+                tbl[ch] = r
+    return tbl
+
+
+def _label(seq):
+    mt = seq.moltype
+    return getattr(mt, "label", None) or getattr(mt, "name", None)
+
+
+def _conv_state(seq):
+    v = seq._seq
+    return dict(str=str(seq), len=len(seq), moltype=_label(seq), start=v.start, stop=v.stop, step=v.step,
+                seq_len=v.seq_len, parent=v.seq)
+
+
+def _first_diff(real, mod):
+    return next((i for i, (a, b) in enumerate(zip(real, mod)) if a != b), min(len(real), len(mod)))
+
+
+def _conv_chain_corr(ctx, out):
+    rng = ctx.subrng("convchain")
+    cases = []
+    for _ in range(ctx.budget(2500, 30000)):
+        mt = rng.choice(["dna", "rna"])
+        n = rng.choice([0, 1, 2, 3, 7, 12, 30]) if rng.random() < 0.5 else rng.randint(0, 40)
+        letters = _SEQ_LETTERS[mt] + (_DEGEN if rng.random() < 0.3 else "")
+        text = "".join(rng.choice(letters) for _ in range(n))
+        ops = []
+        for _ in range(rng.randint(1, 7)):
+            r = rng.random()
+            if r < 0.2:
+                ops.append(["rc"])
+            elif r < 0.32:
+                ops.append(["to_rna"])
+            elif r < 0.44:
+                ops.append(["to_dna"])
+            else:
+                op = _rand_op(rng, max(n, 3))
+                if op[0] == "s" and rng.random() < 0.5:
+                    op[1] = rng.choice([None, op[1]])
+                    op[2] = rng.choice([None, op[2]])
+                ops.append(op)
+        cases.append((mt, text, ops))
+    for kind in ("old", "new"):
+        tabs = dict(
+            comp_dna=_real_comp_table(kind, "dna"), comp_rna=_real_comp_table(kind, "rna"),
+            to_rna=_real_conv_table(kind, "rna"), to_dna=_real_conv_table(kind, "dna"),
+        )
+        if tabs["to_rna"].get("T") != "U" or tabs["to_dna"].get("U") != "T" or any(k.upper() not in "TU" for k in list(tabs["to_rna"]) + list(tabs["to_dna"])):
+            add_failure(out, "corr", "real to_rna/to_dna conversion is not the T<->U exchange", dict(impl=kind), "T<->U", tabs, confirmed=False)
+        model = ctx.driver.batch([("convchain", dict(parent=text, rna=(mt == "rna"), ops=ops, **tabs)) for mt, text, ops in cases])
+        for (mt, text, ops), mod in zip(cases, model):
+            out["evaluations"] += 1
+            inp = dict(impl=kind, moltype=mt, parent=text, ops=ops, stream="convchain")
+            try:
+                seq = _mk_seq(kind, mt, text, 0)
+            except Exception as e:
+                add_failure(out, "corr", "make_seq raised (convchain)", inp, "sequence", repr(e), confirmed=False)
+                continue
+            real = [_conv_state(seq)]
+            for op in ops:
+                try:
+                    seq = _apply_real(seq, op)
+                except (ValueError, IndexError, AssertionError) as e:
+                    real.append({"err": _errname(e)})
+                    break
+                real.append(_conv_state(seq))
+            if real != mod:
+                k = _first_diff(real, mod)
+                add_failure(out, "corr", f"Sequence state differs from Model/SeqConv ({kind})", dict(inp, first_difference_after_ops=k),
+                            mod[k] if k < len(mod) else None, real[k] if k < len(real) else None, confirmed=False)
+                continue
+            last = real[-1]
+            nconv = sum(1 for o in ops if o[0] in ("to_rna", "to_dna"))
+            bump(out, "convchain_final", "raises:" + last["err"] if "err" in last else ("nonempty" if last["len"] else "empty"))
+            bump(out, "convchain_conversions", min(nconv, 3))
+            if ("err" in last or last["len"] > 0) and nconv:
+                out["nontrivial"].add(("convchain", kind, mt, text, str(ops)))
+            if sum(1 for x in out["samples"] if x.get("stream") == "convchain") < 2 and nconv and len(ops) > 2 and "err" not in last and last["len"] > 1:
+                out["samples"].append(dict(inp, final=last))
+
+
+def _coord_state(seq):
+    try:
+        c = list(seq.parent_coordinates())
+    except AssertionError:
+        c = {"err": "AssertionError"}
+    try:
+        ao = int(seq.annotation_offset)
+    except AssertionError:
+        ao = {"err": "AssertionError"}
+    return dict(str=str(seq), coords=c, annotation_offset=ao)
+
+
+def _coord_chain_corr(ctx, out):
+    rng = ctx.subrng("coordchain")
+    cases = []
+    for _ in range(ctx.budget(2000, 25000)):
+        mt = rng.choice(["dna", "dna", "rna", "protein"])
+        n = rng.choice([1, 2, 3, 7, 12, 30]) if rng.random() < 0.5 else rng.randint(0, 40)
+        text = "".join(rng.choice(_SEQ_LETTERS[mt]) for _ in range(n))
+        ops = []
+        for _ in range(rng.randint(1, 5)):
+            if mt != "protein" and rng.random() < 0.2:
+                ops.append(["rc"])
+            else:
+                op = _rand_op(rng, max(n, 3))
+                if op[0] == "s":
+                    if op[3] == 0:
+                        op[3] = None
+                    if rng.random() < 0.6:
+                        op[1] = rng.choice([None, op[1]])
+                        op[2] = rng.choice([None, op[2]])
+                ops.append(op)
+        cases.append((mt, text, rng.choice([0, 7, 100]), ops))
+    for kind in ("old", "new"):
+        model = ctx.driver.batch([
+            ("coordchain", dict(parent=text, nucleic=(mt != "protein"), comp=_real_comp_table(kind, mt), offset=o, seqid="s", ops=ops))
+            for mt, text, o, ops in cases
+        ])
+        for (mt, text, o, ops), mod in zip(cases, model):
+            out["evaluations"] += 1
+            inp = dict(impl=kind, moltype=mt, parent=text, offset=o, ops=ops, stream="coordchain")
+            try:
+                seq = _mk_seq(kind, mt, text, o)
+            except Exception as e:
+                add_failure(out, "corr", "make_seq raised (coordchain)", inp, "sequence", repr(e), confirmed=False)
+                continue
+            real = [_coord_state(seq)]
+            for op in ops:
+                try:
+                    seq = _apply_real(seq, op)
+                except (ValueError, IndexError, AssertionError) as e:
+                    real.append({"err": _errname(e)})
+                    break
+                real.append(_coord_state(seq))
+            if real != mod:
+                k = _first_diff(real, mod)
+                add_failure(out, "corr", f"parent_coordinates/annotation_offset differ from Model/SeqCoords ({kind})",
+                            dict(inp, first_difference_after_ops=k), mod[k] if k < len(mod) else None, real[k] if k < len(real) else None, confirmed=False)
+                continue
+            last = real[-1]
+            bump(out, "coordchain_final", "raises:" + last["err"] if "err" in last else ("nonempty" if last["str"] else "empty"))
+            if "err" not in last and last["str"] and o:
+                out["nontrivial"].add(("coordchain", kind, mt, text, o, str(ops)))
+
+
+def _sdv_str_corr(ctx, out):
+    """SeqDataView.str_value (any offset: the model mirrors the code) and, for offset 0, equality with data[start:stop:step]"""
+    from cogent3.core import new_alignment, new_moltype
+
+    rng = ctx.subrng("sdvstr")
+    alpha = new_moltype.get_moltype("dna").most_degen_alphabet()
+    reqs, reals, inps = [], [], []
+    for _ in range(ctx.budget(2500, 30000)):
+        n = rng.randint(0, 25)
+        data = "".join(rng.choice("ACGT") for _ in range(n))
+        off = rng.choice([0, 0, 0, 3, 11])
+        sd = new_alignment.SeqsData(data={"a": data}, alphabet=alpha)
+        try:
+            v = new_alignment.SeqDataView(seq=sd, seqid="a", seq_len=n, start=_rand_arg(rng, n), stop=_rand_arg(rng, n), step=_rand_step(rng), offset=off)
+            for op in [_rand_op(rng, n) for _ in range(rng.randint(0, 3))]:
+                v = v[slice(*op[1:])] if op[0] == "s" else v[op[1]]
+        except (ValueError, IndexError):
+            continue
+        try:
+            r = v.str_value
+        except AssertionError:
+            r = {"err": "AssertionError"}
+        reqs.append(("sdvstr", dict(data=data, start=v.start, stop=v.stop, step=v.step, offset=v.offset, seq_len=v.seq_len)))
+        reals.append(r)
+        inps.append(dict(data=data, start=v.start, stop=v.stop, step=v.step, offset=v.offset, seq_len=v.seq_len, stream="sdvstr"))
+    for inp, real, mod in zip(inps, reals, ctx.driver.batch(reqs)):
+        out["evaluations"] += 1
+        bump(out, "sdvstr_offset", "zero" if inp["offset"] == 0 else "nonzero")
+        if real != mod:
+            add_failure(out, "corr", "SeqDataView.str_value differs from Model/SeqCoords.sdvStrValue", inp, mod, real, confirmed=False)
+        elif inp["offset"] == 0:
+            want = inp["data"][inp["start"] : inp["stop"] : inp["step"]]
+            if real != want:
+                add_failure(out, "corr", "SeqDataView.str_value (offset 0) differs from data[start:stop:step]", inp, want, real, confirmed=False)
+            elif real:
+                out["nontrivial"].add(("sdvstr", tuple(sorted(inp.items()))))
+
+
+_correspondence_part1 = correspondence
+
+
+def correspondence(ctx):  # noqa: F811  (extends the function defined above)
+    out = _correspondence_part1(ctx)
+    out["rule"] += (
+        "; plus wrapper-model streams: convchain (dna/rna chains with to_rna/to_dna, non-trivial = contains a conversion and is "
+        "non-empty or raises), coordchain (parent_coordinates with annotation offsets 0/7/100), sdvstr (SeqDataView.str_value)"
+    )
+    _conv_chain_corr(ctx, out)
+    _coord_chain_corr(ctx, out)
+    _sdv_str_corr(ctx, out)
+    return out
+
+
+_correspondence_part2 = correspondence
+
+
+def correspondence(ctx):  # noqa: F811  (adds the translator self-test stream)
+    out = _correspondence_part2(ctx)
+    gen_corr(ctx, out)
+    return out
+
+
+TRUSTED += [
+    "translator/py2lean_view.py (python ast -> Lean for the slice-record arithmetic): its output Gen/C01View.lean is proved equal to the hand "
+    "model for all arguments (Proofs/C01GenEq.lean, re-checked against freshly generated text every run) and is itself tied to the python "
+    "originals by the `gen` self-test stream (generated definitions vs python functions on the same arguments)",
+]
+ASSUMPTIONS += [
+    "translator conventions: A1 len(self.seq) == self.seq_len for an existing view (constructor check); A2 `if step > 0 .. elif step < 0 ..` "
+    "without else is exhaustive (step != 0 is part of the proved invariant); A3 x // 0, x % 0 follow Int.fdiv/Int.fmod (python raises; step != 0)",
+]
